@@ -227,6 +227,25 @@ def check(case):
     return {'res': out, 'parsed': parsed, 'front': front}
 
 
+def timed(case):
+    """CPU seconds of one compile at -O0 without -g (growth measurements for
+    the timeout findings); 60 s cap"""
+    import time
+    _limit_memory()
+    old = signal.signal(signal.SIGPROF, _alarm)
+    t0 = time.process_time()
+    signal.setitimer(signal.ITIMER_PROF, 60, 1.0)
+    try:
+        try:
+            r = one_config(case['src'], case.get('level', 0), False)['v'][0]
+        except _Timeout:
+            r = 'timeout'
+    finally:
+        signal.setitimer(signal.ITIMER_PROF, 0)
+        signal.signal(signal.SIGPROF, old)
+    return [r, round(time.process_time() - t0, 2)]
+
+
 # ---------------------------------------------------------------------------
 # T-fn: the two arity-assuming parse actions on constructed token lists
 
